@@ -147,7 +147,7 @@ pub fn min_len(attr: u16) -> usize {
     }
 }
 
-const LADDER: [usize; 12] = [1, 2, 3, 4, 15, 16, 17, 31, 255, 256, 1016, 1017];
+const LADDER: [usize; 18] = [1, 2, 3, 4, 15, 16, 17, 31, 249, 250, 255, 256, 505, 506, 511, 512, 1016, 1017];
 
 fn var_len(r: &Rng, max: usize, big: bool) -> usize {
     let l = if big && r.chance(1, 6) { *r.pick(&LADDER) } else if r.chance(1, 3) { *r.pick(&LADDER[..8]) } else { 1 + r.below(24) };
@@ -289,22 +289,58 @@ pub fn gen_data(r: &Rng, with_offset: bool) -> TMsg {
     TMsg::Data { p: r.chance(1, 2), len: if has_len { Some(total as u16) } else { None }, tid: r.u16x(), sid: r.u16x(), nsnr, off, data }
 }
 
+/// Images for the decoder streams are assembled by the generator itself (flag word, length fields,
+/// AVP headers); only the value octets of an AVP come from the crate's per-type writers.  A defect in
+/// the crate's framing code therefore cannot silently turn the "valid" inputs into rejected ones.
 pub fn encode_msg(t: &TMsg) -> Option<Vec<u8>> {
-    let m = t.to_crate()?;
-    guard(|| {
-        let mut w = VecWriter::new();
-        m.write(&mut w);
-        w.data
-    })
+    match t {
+        TMsg::Control { tid, sid, ns, nr, avps, .. } => {
+            let recs: Vec<Vec<u8>> = avps.iter().map(encode_avp).collect::<Option<Vec<_>>>()?;
+            let total: usize = recs.iter().map(|x| x.len()).sum();
+            if total + 12 > 65535 {
+                return None;
+            }
+            Some(assemble(0x1320, *tid, *sid, *ns, *nr, &recs))
+        }
+        TMsg::Data { p, len, tid, sid, nsnr, off, data } => {
+            let w: u16 = 0x0020
+                | if len.is_some() { 0x0200 } else { 0 }
+                | if nsnr.is_some() { 0x1000 } else { 0 }
+                | if off.is_some() { 0x4000 } else { 0 }
+                | if *p { 0x8000 } else { 0 };
+            let mut v = w.to_be_bytes().to_vec();
+            if let Some(l) = len {
+                v.extend_from_slice(&l.to_be_bytes());
+            }
+            v.extend_from_slice(&tid.to_be_bytes());
+            v.extend_from_slice(&sid.to_be_bytes());
+            if let Some((a, b)) = nsnr {
+                v.extend_from_slice(&a.to_be_bytes());
+                v.extend_from_slice(&b.to_be_bytes());
+            }
+            if let Some(o) = off {
+                v.extend_from_slice(&o.to_be_bytes());
+            }
+            v.extend_from_slice(data);
+            Some(v)
+        }
+    }
 }
 
 pub fn encode_avp(t: &TAvp) -> Option<Vec<u8>> {
     let a = to_crate(t)?;
-    guard(|| {
+    let full = guard(|| {
         let mut w = VecWriter::new();
         a.write(&mut w);
         w.data
-    })
+    })?;
+    if full.len() < 6 || full.len() > 1023 {
+        return None;
+    }
+    // own header: M bit, H bit for hidden values, vendor 0; payload (attribute type + value) as written
+    let flags = if t.kind == "Hidden" { 3 } else { 1 };
+    let attr = ((full[4] as u16) << 8) | full[5] as u16;
+    Some(record(flags, 0, attr, &full[6..]))
 }
 
 /// assemble a control image from records (own assembler: the fault injectors need the record boundaries)
@@ -464,7 +500,7 @@ fn noncanonical(r: &Rng) -> Vec<u8> {
     let mt = *r.pick(&[1u16, 2, 3, 4, 6, 7, 8, 9, 10, 11, 12, 14, 15, 16]);
     recs.push(record(r.next() as u8 & 0x3d, 0, 0, &[(mt >> 8) as u8, mt as u8]));
     for _ in 1..n {
-        let t = gen_avp(r, false);
+        let t = gen_avp(r, r.chance(1, 5));
         if let Some(mut rec) = encode_avp(&t) {
             // unset M, set reserved bits (never H), surplus payload for fixed kinds
             rec[0] = (rec[0] & 0xC0) | (r.next() as u8 & 0x3d);
@@ -1509,7 +1545,7 @@ pub fn generate(prop: &str, tier: &str, seed: u64) -> Vec<String> {
         "C10" => {
             for i in 0..n(25000, 500000) {
                 let b = match i % 5 {
-                    0 => valid_image(&r, i % 50 == 0),
+                    0 => valid_image(&r, i % 4 == 0),
                     1 | 2 => noncanonical(&r),
                     3 => data_image_noncanonical(&r),
                     _ => {
